@@ -137,6 +137,7 @@ pub fn nontrivial(_prop: &str, r: &Req, imp: &str) -> bool {
 pub fn known_finding(prop: &str, r: &Req, imp: &str, spec: &str) -> Option<String> {
     match prop {
         "C14" => c14::known_finding(r, imp, spec),
+        "C05" => c05::known_finding(r, imp, spec),
         _ => None,
     }
 }
